@@ -6,8 +6,12 @@ import Cutadapt.Properties.C07
 #print axioms Cutadapt.C07.pigeonhole_script
 #print axioms Cutadapt.C07.positions_never_error
 #print axioms Cutadapt.C07.internal_entry
+#print axioms Cutadapt.C07.kmers_present_ignores_beyond
+#print axioms Cutadapt.C07.window_inside
+#print axioms Cutadapt.C07.overlap_level_safe
+#print axioms Cutadapt.C07.overlap_levels_cover
 #print axioms Cutadapt.C07.prefilter_unsafe_witness
-#print axioms Cutadapt.C07.w1_ok
+#print axioms Cutadapt.C07.w2_ok
 #print axioms Cutadapt.C07.prefilter_not_safe
 #print axioms Cutadapt.C07.prefilter_only_removes
 #print axioms Cutadapt.C07.prefilter_safe_partial
